@@ -258,6 +258,8 @@ R.contract(
                 "forall(lambda k: implies(0 <= k < n0 - len(streams_blocked), some(at(q0, k).stream_id) // 4 < max_streams))",
                 "forall(lambda k: implies(0 <= k < n0, at(q0, k).stream_id == old(at(q0, k).stream_id)))",
                 "max_streams == lim",
+                # (added for C05: the queue of the OTHER direction is not touched - needed where both are unblocked in a row)
+                "implies(is_unidirectional, same(self._streams_blocked_bidi, old(self._streams_blocked_bidi))) and implies(not is_unidirectional, same(self._streams_blocked_uni, old(self._streams_blocked_uni)))",
             ],
             modifies=["QuicStream.is_blocked[*]", "QuicStream.max_stream_data_remote[*]", "self._streams_blocked_uni", "self._streams_blocked_bidi", "streams_blocked"],
             decreases="len(streams_blocked)",
@@ -271,6 +273,7 @@ R.contract(
         "forall(lambda k: implies(0 <= k < len(streams_blocked), at(streams_blocked, k) == at(q0, k + n0 - len(streams_blocked))))",
         "implies(len(streams_blocked) > 0, some(at(streams_blocked, 0).stream_id) // 4 >= lim)",
         "self._remote_max_streams_bidi == old(self._remote_max_streams_bidi) and self._remote_max_streams_uni == old(self._remote_max_streams_uni)",
+        "implies(is_unidirectional, same(self._streams_blocked_bidi, old(self._streams_blocked_bidi))) and implies(not is_unidirectional, same(self._streams_blocked_uni, old(self._streams_blocked_uni)))",
     ],
     prop=["C06"],
 )
